@@ -34,7 +34,7 @@ LEVEL = 'exploration'
 RULE = ('Hypothesis RuleBasedStateMachine histories (quick: <= 40 steps) over one cache shared by three TileManagers built by the '
         'configuration loader (single-tile, 2x2 meta-tile with/without minimize_meta_requests and meta_buffer, bulk meta-tile) on the '
         'file (6 directory layouts, symlinked single-colour tiles), per-level sqlite and mbtiles-with-timestamps backends, with a '
-        'virtual clock. Steps: request a tile / a block of tiles (plain, or seed style with the walker\'s is_cached / is_stale '
+        'virtual clock and a generated server time zone (process TZ: UTC, 3 zones west, 3 east; January / June). Steps: request a tile / a block of tiles (plain, or seed style with the walker\'s is_cached / is_stale '
         'pre-check), advance the clock (1/8 s ... a week), set the serving rule refresh_before (absolute time as string or datetime, '
         'relative seconds/minutes/hours/days/weeks, mtime of a file), re-touch the mtime file, set the seed-task threshold '
         '(_expire_timestamp computed as SeedTask does), switch the upstream between ok / SourceError / on_error image (with and '
@@ -47,7 +47,8 @@ RULE = ('Hypothesis RuleBasedStateMachine histories (quick: <= 40 steps) over on
         'tile was requested before and after a threshold change and the history contains at least one must-refresh and one '
         'must-keep decision on a stored tile; distinct = distinct (configuration, operation list).')
 ASSUMPTIONS = [
-    'TZ=UTC (no DST gaps in mktime); virtual clock values are multiples of 1/8 s so float arithmetic is exact',
+    'server time zone drawn per history (UTC, 3 zones west, 3 east incl. half-hour offsets and a southern DST zone; January or June 2003); the clock stays >= 5 weeks away from DST switches; the model works in epoch seconds only; virtual clock values are multiples of 1/8 s so float arithmetic is exact',
+    'absolute `time:` thresholds (ISO string / datetime without offset; the documentation does not name the zone) are generated in UTC histories only; relative and mtime rules and the seed-task threshold in every zone',
     'same-second band (floor(written) == floor(threshold) and written > threshold) accepted either way: documented integer granularity of the comparison',
     'file backend: the kernel clock is emulated by os.utime(mtime = virtual now) immediately after every store_tile',
     'concurrent_tile_creators = 1 (schedules belong to C08); sqlite ttl option not used (it reads the real SQL clock)',
@@ -59,7 +60,13 @@ ASSUMPTIONS = [
 ]
 
 BASE = 1.0e9                      # 2001-09-09T01:46:40Z, far from the real clock on purpose
-START = BASE + 500 * 86400.0
+START = BASE + 500 * 86400.0       # 2003-01-22 (January histories)
+# server time zone (process TZ of the code under test) and season are generated per history.  The virtual clock stays within
+# [start, start + MAX_ADVANCE]; for these zones and both seasons the UTC offset is constant from start - 35 d to start + 65 d,
+# i.e. the clock keeps >= 5 weeks away from every DST switch and local <-> epoch conversion is unambiguous.
+ZONES = ['UTC', 'America/New_York', 'America/Los_Angeles', 'Pacific/Honolulu', 'Europe/Berlin', 'Asia/Kolkata', 'Australia/Adelaide']
+SEASONS = {'jan': START, 'jun': START + 145 * 86400.0}      # 2003-01-22 / 2003-06-16
+MAX_ADVANCE = 30 * 86400.0
 TILE = 16
 LEVELS = (0, 1, 2)
 UNIVERSE = [(x, y, z) for z in LEVELS for x in range(2 ** z) for y in range(2 ** z)]
@@ -222,12 +229,13 @@ class Engine(object):
         self.mgrs2 = None          # second set of managers on the same directories (built on demand)
         self.gate = None           # race control of the synthetic upstream
         self.race_tag = ''
-        if _real_time.timezone != 0 or _real_time.daylight:
-            _real_time.tzset()
-            if _real_time.timezone != 0 or _real_time.daylight:
-                raise core.HarnessError('C13 needs TZ=UTC')
-        self.clock = VClock(START + cfg['start_frac'] * 0.125)
+        self.zone = cfg.get('zone', 'UTC')
+        self.start = SEASONS[cfg.get('season', 'jan')]
+        self.clock = VClock(self.start + cfg['start_frac'] * 0.125)
+        self._orig_tz = os.environ.get('TZ')
+        self._tz_set = False
         try:
+            self._set_zone()
             self._build()
         except BaseException:
             self.close()
@@ -235,11 +243,28 @@ class Engine(object):
 
     # -- construction ---------------------------------------------------------------------------
 
+    def _set_zone(self):
+        """process time zone of the code under test (the harness' own arithmetic is in epoch seconds only)"""
+        import zoneinfo
+        self._tz_set = True
+        os.environ['TZ'] = self.zone
+        _real_time.tzset()
+        zi = zoneinfo.ZoneInfo(self.zone)
+        for t in (self.start - 35 * 86400.0, self.start, self.start + MAX_ADVANCE + 35 * 86400.0):
+            want = int(_real_datetime_mod.datetime.fromtimestamp(t, zi).utcoffset().total_seconds())
+            got = _real_time.localtime(t).tm_gmtoff
+            if want != got:
+                raise core.HarnessError('TZ=%s not in effect: C library offset %r, tz database %r' % (self.zone, got, want))
+        self.utc_offset = _real_time.localtime(self.start).tm_gmtoff
+
     def _rule_conf(self, r):
         """absolute rule description -> the refresh_before dict a configuration would contain"""
         if r is None:
             return {}
         if r['kind'] == 'time':
+            if self.zone != 'UTC':
+                # the documentation does not say in which zone an ISO time without offset is meant
+                raise core.HarnessError('absolute `time` rules are generated for UTC histories only')
             if r.get('as_datetime'):
                 return {'time': _real_datetime_mod.datetime.utcfromtimestamp(r['value'])}
             return {'time': _iso(r['value'])}
@@ -253,7 +278,7 @@ class Engine(object):
         self.tmp = tempfile.mkdtemp(prefix='c13-', dir=_scratch_root())
         tmp = self.tmp
         self.mtime_file = os.path.join(tmp, 'reseed.time')
-        self._touch(START - 86400.0)
+        self._touch(self.start - 86400.0)
         backend = cfg['backend']
         if backend in ('file', 'file-symlink'):
             cache = {'type': 'file', 'directory': os.path.join(tmp, 'tiles'), 'directory_layout': cfg['layout']}
@@ -355,6 +380,13 @@ class Engine(object):
             if self.undo:
                 self.undo()
                 self.undo = None
+            if getattr(self, '_tz_set', False):
+                if self._orig_tz is None:
+                    os.environ.pop('TZ', None)
+                else:
+                    os.environ['TZ'] = self._orig_tz
+                _real_time.tzset()
+                self._tz_set = False
             if self.tmp:
                 shutil.rmtree(self.tmp, ignore_errors=True)
                 self.tmp = None
@@ -493,6 +525,8 @@ class Engine(object):
         v = None
         if kind == 'advance':
             self.clock.now += op['dt']
+            if self.clock.now - self.start > MAX_ADVANCE + 86400.0:
+                raise core.HarnessError('virtual clock left the DST-free window')
         elif kind == 'version':
             self.version += 1
         elif kind == 'failure':
@@ -1121,8 +1155,13 @@ def configs(draw):
         'latency': draw(st.sampled_from([0.0, 0.0, 0.25, 1.0])),
         'start_frac': draw(st.integers(0, 7)),
         'initial_rule': None,
+        'zone': draw(st.sampled_from(ZONES)),
+        'season': draw(st.sampled_from(['jan', 'jun'])),
     }
+    START = SEASONS[cfg['season']]
     k = draw(st.sampled_from(['none', 'none', 'time', 'delta', 'mtime']))
+    if k == 'time' and cfg['zone'] != 'UTC':
+        k = 'delta'
     if k == 'time':
         cfg['initial_rule'] = make_rule('time', START + draw(st.sampled_from([-5.0, 0.0, 1.0, 2.0, 100.0])), START, None,
                                         draw(st.booleans()))
@@ -1184,6 +1223,9 @@ class ExpiryMachine(RuleBasedStateMachine):
 
     @rule(dt=st.sampled_from(DTS))
     def advance(self, dt):
+        eng = self.eng
+        if eng is None or eng.clock.now + dt - eng.start > MAX_ADVANCE:
+            return
         self._do({'op': 'advance', 'dt': dt})
 
     @rule()
@@ -1208,6 +1250,8 @@ class ExpiryMachine(RuleBasedStateMachine):
     def set_rule(self, kind, i, off, style, as_datetime, slot):
         if self.eng is None or self.eng.dead:
             return
+        if kind == 'time' and self.eng.zone != 'UTC':
+            kind = 'delta'      # see _rule_conf: absolute ISO times only in UTC histories
         if kind == 'clear':
             r = None
         else:
@@ -1304,6 +1348,9 @@ class ExpiryMachine(RuleBasedStateMachine):
 def record(st_, eng):
     classes = set(eng.classes)
     classes.add('backend:' + eng.cfg['backend'])
+    classes.add('zone:' + eng.zone)
+    classes.add('season:' + eng.cfg.get('season', 'jan'))
+    classes.add('zone+backend:%s/%s' % ('UTC' if eng.zone == 'UTC' else ('east' if eng.utc_offset > 0 else 'west'), eng.family))
     if eng.cfg['backend'] in ('file', 'file-symlink'):
         classes.add('layout:' + eng.cfg['layout'])
     if eng.cfg['latency']:
